@@ -15,6 +15,10 @@ extension  : kind `mastereq` (module C06_mastereq.py, cases `me-*`): the CONTENT
              Model.MasterEq — the captured `lindblad_rhs` closure on random rational rho, `l_dag_l_sum`, `jump_ops`,
              `solve_ivp` kwargs, `Tr(O rho)` on a known rho, `preprocess_mcwf(...).heff`, one forced pass of `mcwf`;
              oracle: independent dense Lindbladian / expm reference (see the docstring of that module).
+extension 2: kind `mastereq-step` (same module, cases `me2-*`, driver requests `mcwfstep2` / `purerho`): one pass of the REAL
+             `mcwf` with every collaborator observed (propagated state optionally forced to a dyadic vector so that the draw
+             sits exactly ON / just below / just above `p_jump`; recording wrappers around `ctx.jump_ops`; `get_state`) against
+             `Model.MasterEqExec` (`opCalls`, `postRho`, `oneStepCols`), and the `y0` of the REAL `lindblad` against `pureRho`.
 """
 from __future__ import annotations
 
@@ -222,6 +226,10 @@ def gen(rng, tier):
     # extension: lindblad_rhs / l_dag_l_sum / jump_ops / heff / one forced MCWF pass vs Model.MasterEq (fast, ~11 cases each)
     for _ in range({"quick": 30, "thorough": 200, "search": 40}.get(tier, 30)):
         yield {"kind": "mastereq", "sub": xr.randrange(1 << 30)}
+    # extension 2: one fully observed MCWF pass (boundary draws, exact zeros in the choice vector, 1e-15 scale) vs Model.MasterEqExec
+    xr2 = random.Random(f"C06x2:{rng.getstate()[1][:3]}")  # own stream again
+    for _ in range({"quick": 40, "thorough": 300, "search": 60}.get(tier, 40)):
+        yield {"kind": "mastereq-step", "sub": xr2.randrange(1 << 30)}
     for j in range(n_dyn):
         sub = rng.randrange(1 << 30)
         yield {"kind": "dyn-free" if j % 5 != 4 else "dyn-lind", "sub": sub}
@@ -719,6 +727,8 @@ def run_inner(inp):
         return run_dyn_stat(inp)
     if k == "mastereq":
         return me.run_mastereq(inp)
+    if k == "mastereq-step":
+        return me.run_mastereq_step(inp)
     raise ValueError(k)
 
 
@@ -733,7 +743,12 @@ if __name__ == "__main__":
                  "Hamiltonians, process lists from the noise library (1-site / adjacent / long-range, zero / negative / duplicate "
                  "strengths, random order), random rational Hermitian and non-Hermitian rho through the captured lindblad_rhs "
                  "closure, l_dag_l_sum, jump_ops, heff, solve_ivp kwargs, Tr(O rho) on a known rho, one forced MCWF pass; "
-                 "non-trivial = at least one process survives the strength filter (jumpops: at least one is dropped)",
+                 "non-trivial = at least one process survives the strength filter (jumpops: at least one is dropped); extension 2 (kinds me2-*): "
+                 "one fully observed MCWF pass — draws forced onto / next to the boundary r = p_jump (propagated state replaced by a dyadic "
+                 "vector), p_jump = 0 and < 0, basis states with lowering and raising on the same site (exact zeros in the vector for "
+                 "choice), total weights of order 1e-15 on both sides of the threshold, random complex states; compared: p_jump, branch, "
+                 "vector for choice, the sequence of jump-operator products and their argument, the output state as a density matrix, "
+                 "the returned columns; lindblad's y0 for complex product states",
             trusted_base=["numpy/scipy dense linear algebra (kron, eigh, expm) in the oracles",
                           "np.kron / scipy.sparse.kron entry rule A[i//rB, j//cB]*B[i%rB, j%cB] (value-tied through _kron_all_*)",
                           "me-* ties: scipy.sparse matmul / conj().T, np.vdot, np.trace (compared with the exact model at 1e-9); "
